@@ -134,8 +134,8 @@ def render(item, spell=None):
 TYPES = ["i32", "String", "u8", "Vec<i32>", "Option<String>", "f32", "(i32, u8)", "[u8; 4]", "std::string::String", "Box<Inner>"]
 NAMES = ["a", "b", "c", "d", "e", "f", "g", "h", "k", "m", "n", "q"]
 OTHER = ["x", "y", "z", "w", "u", "v", "s", "t"]
-CPARTS = ["A", "B", "C", "m::D", "G<i32>", "G<T>", "H::<'x, u8>", "crate::n::E"]
-ERRS = ["MyErr", "String", "std::io::Error", "E1<T>", "anyhow::Error"]
+CPARTS = ["A", "B", "C", "m::D", "G<i32>", "G<T>", "H::<'x, u8>", "crate::n::E", "::m::G<T>", "::k::K"]
+ERRS = ["MyErr", "String", "std::io::Error", "E1<T>", "anyhow::Error", "::e::Err<T>"]
 
 ACTIONS_TILDE = ["~.clone()", "~ as i64", "{ ~.to_string() }", "~.iter().map(|p| p.into()).collect()", "Some(~)", "~ + 1",
                  "[~, ~]", "(~, 1)", "~.parse::<i32>().unwrap()", "~.0", "Box::new(~)", "&~", "~ . x . y", "~.try_into()?"]
@@ -563,6 +563,27 @@ class G:
                 vat.append(Instr("type_hint", "as " + ("{}" if shape == "tuple" else "()"), tag=("th", None)))
                 fields = self.shape_fields(shape, max(1, nf), cparts, shape == "tuple")
             vs.append(Variant(f"V{k}", shape, fields, vat))
+        if not prim and self.pr("permeate_run", 0.0):
+            # payload-level runs across variants: a permeating block, closed (by its own stop_repeat or by the stop_repeat of the
+            # next block's opener), then a plain repeat in a later variant, then at least one more variant with members
+            def mk(k, nfl, first_attrs):
+                shape = self.ch(["named", "named", "tuple"])
+                fl = [Field(NAMES[m] if shape == "named" else None, "i32", list(first_attrs) if m == 0 else ([Instr("skip_repeat", None, tag=("rep", None))] if self.pr("x", 0.15) else [])) for m in range(nfl)]
+                return Variant(f"V{k}", shape, fl, [])
+            m1 = [Instr("from", "~ * 2", tag=("mmap", None)), Instr("into", "~ / 2", tag=("mmap", None))] if self.pr("x", 0.5) else [Instr("map", "~.clone()", tag=("mmap", None))]
+            m2 = [Instr("from", "~ + 1", tag=("mmap", None)), Instr("into", "~ - 1", tag=("mmap", None))]
+            vs = [mk(0, r.randrange(1, 3), [Instr("repeat", self.ch(["permeate()", "permeate(), map", "map, permeate()"]), tag=("rep", None))] + m1)]
+            for _ in range(r.randrange(0, 3)):
+                vs.append(mk(len(vs), r.randrange(1, 3), []))
+            if self.pr("x", 0.5):
+                vs.append(mk(len(vs), r.randrange(1, 3), [Instr("stop_repeat", None, tag=("rep", None))]))
+                vs.append(mk(len(vs), r.randrange(1, 3), [Instr("repeat", self.ch([None, "", "map"]), tag=("rep", None))] + m2))
+            else:
+                vs.append(mk(len(vs), r.randrange(1, 3), [Instr("stop_repeat", None, tag=("rep", None)), Instr("repeat", self.ch([None, "", "map"]), tag=("rep", None))] + m2))
+            for _ in range(r.randrange(1, 3)):
+                vs.append(mk(len(vs), r.randrange(1, 3), []))
+            if self.pr("x", 0.3):
+                vs.insert(r.randrange(len(vs) + 1), Variant(f"U{len(vs)}", "unit", [], []))
         if not prim and len(vs) >= 2 and self.pr("variant_repeat_run", 0.0):
             # a deliberate run: one variant opens `repeat` and carries something repeatable, later variants opt out / stop
             for v in vs:
@@ -633,6 +654,19 @@ class G:
                 for n in range(1, len(pth) + 1):
                     if pth[:n] not in used_prefixes:
                         used_prefixes.append(pth[:n])
+                if self.pr("child_pair", 0.0):
+                    # a default and a dedicated #[child] side by side on one member, naming different paths, in either order
+                    pth2 = self.ch(paths)
+                    pth2 = pth2[: r.randrange(1, len(pth2) + 1)]
+                    other = "" if ded else (self.ch(cparts) + "| ")
+                    c2 = Instr("child", other + ".".join(pth2), tag=("child", None))
+                    if self.pr("x", 0.5):
+                        fa.append(c2)
+                    else:
+                        fa.insert(len(fa) - 1, c2)
+                    for n in range(1, len(pth2) + 1):
+                        if pth2[:n] not in used_prefixes:
+                            used_prefixes.append(pth2[:n])
                 if self.pr("member_instr", 0.35):
                     fa.append(self.member_map_instr(cparts, target_named=True, nfields=nf))
             elif mode == 6:
@@ -727,21 +761,36 @@ class G:
         r.shuffle(cps)
         attrs = []
         k = 0
-        for c in cps[: r.randrange(2, 7)]:
-            nm = self.ch(names)
+        multi_open = None
+        if self.pr("multi_open", 0.0):
+            # two templates of different width open at the same time (different instruction names, different parameters), then
+            # instructions whose kinds both of them cover: only a template of the very same name reaches them
+            wide1, wide2, narrow = self.ch([("map", "from", "from_owned"), ("map", "map_owned", "from_owned"), ("map", "into", "ref_into"),
+                                            ("from", "map", "from_ref"), ("map_owned", "map", "owned_into"), ("into", "map", "owned_into")])
+            multi_open = [wide1, wide2] + [narrow] * r.randrange(1, 3)
+            if self.pr("fallible", 0.3):
+                multi_open = [try_name(n) for n in multi_open]
+        for ci, c in enumerate(cps[: (len(multi_open) if multi_open else r.randrange(2, 7))]):
+            nm = multi_open[ci] if multi_open else self.ch(names)
             _, fall = kinds_of(nm)
             s = c + ((", " + self.ch(["MyErr", "MyErr", "String", "E2", "m::Err<T>"])) if fall else "")
             ps = []
             mark = self.ch(["", "", "repeat()", "repeat(vars)", "repeat(update)", "repeat(quick_return)", "repeat(vars, update)", "skip_repeat", "stop_repeat",
                             "stop_repeat, repeat()", "stop_repeat, repeat(vars)", "repeat(default_case)"])
+            if multi_open:
+                mark = self.ch(["repeat()", "repeat(vars)"]) if ci < 2 else ""
             if mark:
                 ps.append(mark)
-            if self.pr("vars", 0.4):
+            if multi_open and ci < 2:
+                ps.append(f"vars(k: {{ {ci * 2 + 1} }})")
+            elif multi_open:
+                pass
+            elif self.pr("vars", 0.4):
                 ps.append(f"vars(v{k}: {{ {self.ch(['1', '@.x', 'foo()'])} }})")
             if self.pr("attr_params", 0.1):
                 ps.append("attribute(inline)")
             r.shuffle(ps)
-            t = r.random()
+            t = r.random() if not multi_open else 1.0
             if t < 0.3:
                 ps.append(".." + self.ch(["Default::default()", "base()"]))
             elif t < 0.45:
@@ -803,20 +852,20 @@ PROFILES = {
     "enum-members": {"max_variants": 3, "payload_heavy": 0.85, "member_instr": 0.55, "member_try": 0.4, "try_pair": 0.35, "fallible": 0.6, "dedicated": 0.3,
                      "multi_cpart": 0.3, "type_hint": 0.25, "multi_instr": 0.5, "ghost_field": 0.1, "variant_map": 0.2, "type_hint_pair": 0.5},
     "enum-prim": {"enum_prim": 1.0, "max_variants": 5, "default_case": 0.6, "fallible": 0.4, "lit": 0.6, "pat": 0.7, "prim_ghost": 0.12, "prim_multi": 0.3},
-    "tree": {"max_fields": 6, "max_depth": 3, "member_instr": 0.3, "fallible": 0.3, "multi_cpart": 0.3, "hints": 0.2, "ghosts": 0.2, "dedicated": 0.25, "mixed_levels": 0.3, "child_ghosts_ded": 0.35, "ghost_only_child": 0.2, "generic_cpart": 0.15},
+    "tree": {"max_fields": 6, "max_depth": 3, "member_instr": 0.3, "fallible": 0.3, "multi_cpart": 0.3, "hints": 0.2, "ghosts": 0.2, "dedicated": 0.25, "mixed_levels": 0.3, "child_ghosts_ded": 0.35, "ghost_only_child": 0.2, "generic_cpart": 0.15, "child_pair": 0.25},
     "trait-params": {"max_fields": 3, "vars": 0.5, "attr_params": 0.4, "update": 0.3, "quick_return": 0.2, "default_case": 0.4, "trait_repeat": 0.3,
                      "multi_instr": 0.7, "fallible": 0.4, "member_instr": 0.3},
     "repeat": {"max_fields": 6, "min_fields": 2, "member_repeat": 0.35, "member_instr": 0.5, "ghost_field": 0.15, "max_variants": 4, "variant_map": 0.3,
                "trait_repeat": 0.4, "vars": 0.3, "update": 0.2, "multi_instr": 0.6, "type_hint": 0.2, "variant_repeat_run": 0.35,
-               "multi_cpart": 0.45, "dedicated": 0.4, "repeat_overlap": 0.5},
+               "multi_cpart": 0.45, "dedicated": 0.4, "repeat_overlap": 0.5, "permeate_run": 0.15},
     "multi-counterpart": {"multi_cpart": 1.0, "dedicated": 0.6, "member_instr": 0.6, "ghost_field": 0.2, "ghosts": 0.3, "where_clause": 0.3, "multi_instr": 0.5,
                           "fallible": 0.3, "variant_map": 0.4, "type_hint": 0.3, "variant_ghost": 0.15, "variant_ghosts": 0.1, "try_pair": 0.15, "child_ghosts_ded": 0.5, "type_hint_pair": 0.5},
     "generics": {"generics": 1.0, "generic_cpart": 0.7, "where_clause": 0.5, "max_fields": 2, "trailing_comma": 0.2, "multi_cpart": 0.3, "fallible": 0.3, "dedicated": 0.4},
     "expr": {"deep_expr": 0.8, "member_instr": 0.7, "ghost_field": 0.2, "ghosts": 0.2, "vars": 0.4, "update": 0.3, "quick_return": 0.15, "default_case": 0.3,
              "variant_map": 0.5, "max_fields": 3},
     "parents": {"lit_args": 0.05, "parent_heavy": 0.8, "parent_depth": 3, "nested_parent": 0.45, "nested_instr": 0.5, "max_fields": 4, "fallible": 0.3, "multi_cpart": 0.5, "hints": 0.3,
-                "dedicated": 0.45, "member_instr": 0.3, "update": 0.1, "vars": 0.1, "generic_cpart": 0.25, "second_parent": 0.5, "attr_params": 0.25},
-    "trait-repeat": {"vars": 0.4, "fallible": 0.3, "attr_params": 0.1, "enum_item": 0.3, "lit": 0.3},
+                "dedicated": 0.45, "member_instr": 0.3, "update": 0.1, "vars": 0.1, "generic_cpart": 0.25, "second_parent": 0.5, "attr_params": 0.25, "child_pair": 0.2},
+    "trait-repeat": {"vars": 0.4, "fallible": 0.3, "attr_params": 0.1, "enum_item": 0.3, "lit": 0.3, "multi_open": 0.12},
     "shape-change": {"shape_change": 0.8, "shape_multi": 0.4, "shape_mixed": 0.4, "multi_cpart": 0.4, "shape_ghost": 0.3, "fallible": 0.3, "max_variants": 3, "variant_map": 0.1, "member_try": 0.1, "multi_instr": 0.5},
     "unknowns": {"unknowns": 1.0, "max_fields": 3, "member_instr": 0.3, "multi_instr": 0.5, "max_variants": 3, "variant_map": 0.2},
     "faults": {"max_fields": 3, "member_instr": 0.4, "multi_cpart": 0.3, "fallible": 0.4, "drop_err": 0.15, "extra_err": 0.1, "ghost_field": 0.2, "ghost_default": 0.5,
